@@ -206,7 +206,14 @@ impl GitVcs {
 
     /// Get current commit hash (full)
     fn get_commit_hash(&self) -> Result<String> {
-        self.run_git_command(&["rev-parse", "HEAD"])
+        let hash = self.run_git_command(&["rev-parse", "HEAD"])?;
+        // The hash becomes part of the version: anything but an object id is a failed query
+        if hash.is_empty() || !hash.chars().all(|c| c.is_ascii_hexdigit()) {
+            return Err(ZervError::CommandFailed(format!(
+                "Unexpected answer from git rev-parse HEAD: '{hash}'"
+            )));
+        }
+        Ok(hash)
     }
 
     /// Get current branch name
